@@ -107,9 +107,38 @@ class P:
         # directed: every count 0..31 at exact length, pairwise distinct field values (exposes swaps)
         for c in range(0, 32):
             out.append("nf5 %s %s" % (hx(bytes([192, 0, 2, c])), hx(self.packet(rng, c, distinct=True))))
-        return out + [self.gen_case(rng) for _ in range(budget)]
+        out += [self.gen_case(rng) for _ in range(budget)]
+        # retention: several packets are decoded first and printed / encoded only afterwards (a decoded message must not live
+        # in storage that a later decode reuses)
+        self.seq = {}
+        for _ in range(max(10, budget // 60)):
+            singles = []
+            for _ in range(rng.choice([2, 3, 5])):
+                c = rng.randint(1, 30)
+                singles.append("nf5 %s %s" % (hx(rand_addr(rng)), hx(self.packet(rng, c, distinct=rng.random() < 0.5))))
+            line = "nf5seq " + " ".join(x.split(" ", 1)[1] for x in singles)
+            self.seq[line] = singles
+            out.append(line)
+        return out
+
+    def post(self, lines, impl, model):
+        import vf
+        seq = getattr(self, "seq", {})
+        need = [s1 for l in lines if l in seq for s1 in seq[l]]
+        mo = dict(zip(need, vf.run_model(need))) if need else {}
+        return impl, [(" ## ".join(mo[s1] for s1 in seq[l]) if l in seq else m) for l, m in zip(lines, model)]
 
     def judge(self, line, impl, model):
+        seq = getattr(self, "seq", {})
+        if line in seq:
+            ip, mp = impl.split(" ## "), model.split(" ## ")
+            if len(ip) != len(seq[line]):
+                return "decoding %d packets and encoding them afterwards gave %d results: %s" % (len(seq[line]), len(ip), impl[:100])
+            for k, (s1, i1, m1) in enumerate(zip(seq[line], ip, mp)):
+                v = self.judge(s1, i1, m1)
+                if v:
+                    return "packet %d of %d, decoded first and printed after the later ones were decoded: %s" % (k + 1, len(ip), v)
+            return None
         _, a, p = line.split()
         addr, p = bytes.fromhex(a[1:]), bytes.fromhex(p[1:])
         want = oracle(addr, p)
@@ -140,6 +169,8 @@ class P:
         return None
 
     def classify(self, line, impl, model):
+        if line in getattr(self, "seq", {}):
+            return ("sequence decoded first, encoded afterwards", line)
         got = parse_out(model)
         if got is None:
             return ("rejected", "rej:" + str(len(line) % 64))
